@@ -275,6 +275,37 @@ mod fixed {
         pub swim: String,
     }
 
+    /// generic SimpleObject registered through `concrete(..)`: the derive has a separate
+    /// code path for it (object-level and field-level hints must survive it)
+    #[derive(SimpleObject)]
+    #[graphql(concrete(name = "BoxedInt", params(i32)), concrete(name = "BoxedStr", params(String)))]
+    #[graphql(cache_control(max_age = 7, private))]
+    pub struct Boxed<T: OutputType> {
+        #[graphql(cache_control(max_age = 3))]
+        pub v: T,
+        pub n: i32,
+    }
+
+    /// SimpleObject + ComplexObject
+    #[derive(SimpleObject)]
+    #[graphql(complex, cache_control(max_age = 20))]
+    pub struct Bird {
+        pub id: i32,
+        #[graphql(cache_control(max_age = 8))]
+        pub tweet: String,
+    }
+
+    #[ComplexObject]
+    impl Bird {
+        #[graphql(cache_control(max_age = 2, private))]
+        async fn song(&self) -> String {
+            "la".into()
+        }
+        async fn wings(&self) -> i32 {
+            2
+        }
+    }
+
     #[derive(Interface)]
     #[graphql(field(name = "id", ty = "&i32"))]
     pub enum Pet {
@@ -321,6 +352,32 @@ mod fixed {
         async fn dof(&self) -> DogOrFish {
             DogOrFish::Fish(Fish { id: 3, swim: "s".into() })
         }
+        async fn bi(&self) -> Boxed<i32> {
+            Boxed { v: 1, n: 1 }
+        }
+        #[graphql(cache_control(max_age = 50))]
+        async fn bs(&self) -> Boxed<String> {
+            Boxed { v: "s".into(), n: 2 }
+        }
+        async fn bird(&self) -> Bird {
+            Bird { id: 9, tweet: "t".into() }
+        }
+    }
+
+    /// The hints as WRITTEN in the attributes above: (type, object-level policy, [(field, policy)]).
+    /// Kept by hand next to the attributes; compared with the registry the macros produced.
+    pub fn declared() -> Vec<(&'static str, (bool, i32), Vec<(&'static str, (bool, i32))>)> {
+        let d = (true, 0);
+        vec![
+            ("Query", (true, 60), vec![("probe", d), ("v1", (true, 30)), ("v2", (false, 0)), ("dog", d), ("fish", d), ("pet", (true, 40)),
+                                       ("pets", d), ("dof", d), ("bi", d), ("bs", (true, 50)), ("bird", d)]),
+            ("Dog", (false, 10), vec![("id", d), ("bark", (true, 5))]),
+            ("Cat", (true, -1), vec![("id", d), ("meow", d)]),
+            ("Fish", d, vec![("id", d), ("swim", (true, 100))]),
+            ("BoxedInt", (false, 7), vec![("v", (true, 3)), ("n", d)]),
+            ("BoxedStr", (false, 7), vec![("v", (true, 3)), ("n", d)]),
+            ("Bird", (true, 20), vec![("id", d), ("tweet", (true, 8)), ("song", (false, 2)), ("wings", d)]),
+        ]
     }
 
     pub fn desc() -> agv_harness::genschema::SchemaDesc {
@@ -331,12 +388,15 @@ mod fixed {
                 T::Object {
                     name: "Query".into(),
                     cc: Default::default(),
-                    fields: vec![f("v1", "Int!"), f("v2", "Int!"), f("dog", "Dog!"), f("fish", "Fish!"), f("pet", "Pet!"), f("pets", "[Pet!]!"), f("dof", "DogOrFish!")],
+                    fields: vec![f("v1", "Int!"), f("v2", "Int!"), f("dog", "Dog!"), f("fish", "Fish!"), f("pet", "Pet!"), f("pets", "[Pet!]!"), f("dof", "DogOrFish!"), f("bi", "BoxedInt!"), f("bs", "BoxedStr!"), f("bird", "Bird!")],
                     implements: vec![],
                 },
                 T::Object { name: "Dog".into(), cc: Default::default(), fields: vec![f("id", "Int!"), f("bark", "String!")], implements: vec!["Pet".into()] },
                 T::Object { name: "Cat".into(), cc: Default::default(), fields: vec![f("id", "Int!"), f("meow", "String!")], implements: vec!["Pet".into()] },
                 T::Object { name: "Fish".into(), cc: Default::default(), fields: vec![f("id", "Int!"), f("swim", "String!")], implements: vec!["Pet".into()] },
+                T::Object { name: "BoxedInt".into(), cc: Default::default(), fields: vec![f("v", "Int!"), f("n", "Int!")], implements: vec![] },
+                T::Object { name: "BoxedStr".into(), cc: Default::default(), fields: vec![f("v", "String!"), f("n", "Int!")], implements: vec![] },
+                T::Object { name: "Bird".into(), cc: Default::default(), fields: vec![f("id", "Int!"), f("tweet", "String!"), f("song", "String!"), f("wings", "Int!")], implements: vec![] },
                 T::Interface { name: "Pet".into(), fields: vec![f("id", "Int!")], possible: vec!["Dog".into(), "Cat".into(), "Fish".into()] },
                 T::Union { name: "DogOrFish".into(), possible: vec!["Dog".into(), "Fish".into()] },
             ],
@@ -471,6 +531,20 @@ fn main() {
             continue;
         };
         writeln!(out, "DEF\t{sname}\t{gschema}").unwrap();
+        if use_fixed && schema_no == 4 {
+            // declared attribute hints of the derive-built schema vs the registry the macros produced
+            let cc = |p: (bool, i32)| g_cc(&CacheControl { public: p.0, max_age: p.1 });
+            for (t, oc, fs) in fixed::declared().iter() {
+                let decls = format!("[({}, {}, {})]", it.n(t), cc(*oc), g_list(fs.iter(), |(f, c)| format!("({}, {})", it.n(f), cc(*c))));
+                writeln!(
+                    out,
+                    "DECL\t({sname}, {decls})\t{{\"uses\":[{}],\"text\":{},\"nontrivial\":true}}",
+                    jstr(&sname),
+                    jstr(&format!("derive-built type {t}: declared cache_control {oc:?} with field hints {fs:?} (public, max_age) vs the registry produced by the macros"))
+                )
+                .unwrap();
+            }
+        }
         for _ in 0..docs_per_schema {
             if case_no >= a.n {
                 break;
